@@ -63,3 +63,7 @@ claim('C01',
 claim('C07',
   'bounded model checking with CBMC pointer/bounds checks as the oracle: every Start/Step/Get bundle of belt, bash, brng, botp on a state object of EXACTLY X_keep() octets with exact-size caller buffers (64- and 32-bit words), the same with the library ASSERTs live (NDEBUG off, object-aware disjointness model), real kernels on exact buffers, high-level functions on exact-size blobs (hook), and zz/pp routines on stacks of exactly f_deep() octets; gcd/division/sqrt/irreducibility depths are in the thorough tier and mostly undecided',
   'trusted: CBMC memory model; cipher/bash-f replaced by arbitrary in-place functions in the layout obligations (their own memory safety is a separate obligation); uninitialised reads are not detected', 'DESIGN.md 3/C07')
+
+claim('C11',
+  'bounded model checking of the real overlap-tolerant functions (belt CBC/CFB/CTR/BDE/SDE/DWP/CHE/KWP/MAC/hash/HMAC/KRP, bashHash, memMove, memJoin, derEnc family, key expansion): all buffers are windows of one symbolic arena, dest at src + delta for a complete set of concrete deltas and lengths, auxiliary inputs inside or across dest/src where the header allows; outputs and return codes must equal those of the same function on pairwise disjoint copies, for ALL data; cipher/bash-f/GF product uninterpreted',
+  'trusted: CBMC; the table of "buffers may overlap" remarks transcribed from the headers in props/C11.py; quick tier uses edge deltas plus the full delta range for one length per function', 'DESIGN.md 3/C11')
